@@ -1,10 +1,39 @@
 """what MANIFEST.json claims, per property"""
-SOURCE_COMMITS = ["586d1d8", "84b55ce", "952a903", "a66a89b", "c13e5b8", "004b113"]
+SOURCE_COMMITS = ["586d1d8", "84b55ce", "952a903", "a66a89b", "c13e5b8", "004b113", "2d82274", "7e29eec", "332b038", "b0be7a7", "f814fba", "97e13b8", "cc98207", "b0cacf5", "f3ee904"]
 NOT_APPLICABLE = {}
 PROOF_NOTE = ("Trusted: Lean 4.33 kernel and the axioms printed per theorem (propext, Quot.sound, Classical.choice at most); the statements in lean/Proofs/Props; "
               "the hand-written model is validated against the C by differential execution (bounded by generator quality), not derived from it; "
               "translator and harness themselves.")
 CHECKS = {
+ "C04": dict(category="proof",
+   text=("Totality of every model function is checked by Lean (structural / well-founded recursion; fuel with an explicit `hang` outcome elsewhere). Theorems: the restart loop of cabd_find always advances "
+         "and the fuel of the CAB stream feeder (two iterations per remaining block) always suffices, for every cabinet. The decoders' fuel is not yet proved sufficient. "
+         "On the implementation every API call's executed control-flow edges are checked against a linear budget in input+output bytes (9x head-room over the measured maximum), with a watchdog, "
+         "on malformed, shipped and pathological inputs; that found the cyclic-CHM hang repaired by f3ee904."),
+   note=PROOF_NOTE + " Wall-clock time is not covered; the budget constants are calibrated, not derived.", technique="Lean 4 termination measures + instrumented edge budget and watchdog on the implementation"),
+ "C09": dict(category="fault_enumeration",
+   text=("Every single failure of alloc/open/read/write/seek (sampled in the quick tier, every call index in the thorough tier) in complete API sessions of all five formats over well-formed and malformed archives: "
+         "the instrumented system's ledger must be empty after close+destroy and no object may be released twice or used after release. A Lean effect model of the SZDD API with the ledger theorem is under construction and not claimed yet."),
+   note="Trusted: the harness's instrumented mspack_system (ledger + monitor); the enumeration covers the sampled scenarios only.", technique="single-fault enumeration under an instrumented mspack_system with allocation/handle ledger"),
+ "C10": dict(category="proof",
+   text=("(c) proved on the header models for every file content: CAB, SZDD and KWAJ files of at least header length with wrong signature bytes are refused with MSPACK_ERR_SIGNATURE (CHM checked on the implementation). "
+         "(a) last_error synchronisation and (b) single host failures are fault enumeration on the implementation: each faulted call must report failure or reproduce the failure-free result exactly. "
+         "Found and repaired: 2d82274, 7e29eec, 332b038, b0be7a7; two residual cases where a read failure is indistinguishable from truncation are listed as known findings."),
+   note=PROOF_NOTE + " (a),(b): enumeration over sampled scenarios, not a theorem.", technique="Lean 4 theorems on header parsers + single-fault enumeration with failure-free reference runs"),
+ "C11": dict(category="proof",
+   text=("The models take the allocator's fill byte as a parameter wherever the C reads memory it did not write. Theorems: the MSZIP decoder state and hence extraction from stored and MSZIP CAB folders "
+         "(any input) do not depend on it. Quantum/LZX/LZH are validated: every scenario under four fill bytes must give identical results, MemorySanitizer with poisoned allocations must stay silent, "
+         "and model and implementation must agree per fill byte. Found and repaired: f814fba, 97e13b8, cc98207, b0cacf5."),
+   note=PROOF_NOTE, technique="Lean 4 (fill-independence of model states) + multi-fill differential runs + MemorySanitizer"),
+ "C13": dict(category="proof",
+   text=("Theorems on the heap model of cabd_merge: every refusal leaves the heap exactly as it was, and NULL, identical, already-joined, circular and mismatched-split-folder joins are refused with the documented codes. "
+         "Order-independence of successful joins is validated: every order of the joins x append/prepend on generated split sets (exhaustive up to 4 parts), listings of every part compared with the model after every call and with the plan at the end, "
+         "members of spanning folders extracted; refused joins checked for unchanged listings and clean separate close."),
+   note=PROOF_NOTE, technique="Lean 4 theorems on the merge model + exhaustive join-order enumeration with model agreement"),
+ "C20": dict(category="proof",
+   text=("Theorem over the call-site inventory regenerated from today's sources: the library's eighteen open() calls pass caller-supplied or stored archive names with fixed modes (READ for archives/patches/bases, WRITE for outputs). "
+         "All other clauses (handle liveness, seek modes, sizes, buffer bounds, copy overlap, free of live/NULL pointers, filename identity) are checked on every callback invocation by the instrumented system over enumerated scenarios and single faults."),
+   note=PROOF_NOTE + " Dynamic clauses: enumeration, not a theorem.", technique="Lean 4 decide over regenerated call-site inventory + instrumented-system argument checks under fault enumeration"),
  "C05": dict(category="translation_validation",
    text=("Executable Lean models of szddd.c, kwajd.c (headers and the LZH decoder), lzssd.c and mszipd_decompress_kwaj are compared with the implementation on generated well-formed files "
          "(both SZDD variants, all five KWAJ methods, all 64 header-flag combinations, all four LZH length encodings) and on the shipped fixtures; the implementation is judged against the plan "
